@@ -248,3 +248,207 @@ func Harness_C08_reader() {
 	V.Assert(werr == nil && w.Close() == nil, "re-armoring failed")
 	V.Assert(bytes.Equal(buf.Bytes(), norm), "accepted text is not the canonical armor of its content (beyond CRLF / outer whitespace)")
 }
+
+// ---------------------------------------------------------------------------
+// C12 / C13 at the armor layer
+
+type sched struct {
+	data        []byte
+	off         int
+	piece       int
+	eofWithData bool
+	failAt      int // -1: never; otherwise a non-EOF error once failAt bytes were delivered
+}
+
+var errInjected = errors.New("injected read fault")
+
+func (s *sched) Read(p []byte) (int, error) {
+	if s.failAt >= 0 && s.off >= s.failAt {
+		return 0, errInjected
+	}
+	if s.off >= len(s.data) {
+		return 0, io.EOF
+	}
+	n := len(p)
+	if s.piece > 0 && n > s.piece {
+		n = s.piece
+	}
+	if n > len(s.data)-s.off {
+		n = len(s.data) - s.off
+	}
+	if s.failAt >= 0 && s.off+n > s.failAt {
+		n = s.failAt - s.off
+	}
+	copy(p, s.data[s.off:s.off+n])
+	s.off += n
+	if s.eofWithData && s.off == len(s.data) {
+		return n, io.EOF
+	}
+	return n, nil
+}
+
+func dataLen() int {
+	switch V.Int("nkind", 0, V.Param("nkinds", 4)) {
+	case 0:
+		return 0
+	case 1:
+		return 1
+	case 2:
+		return 47
+	case 3:
+		return 48
+	case 4:
+		return 49
+	case 5:
+		return 96
+	}
+	return 97
+}
+
+func readAllStep(r io.Reader, step, limit int) (out []byte, err error) {
+	buf := make([]byte, step)
+	for i := 0; i < limit; i++ {
+		n, e := r.Read(buf)
+		out = append(out, buf[:n]...)
+		if e != nil {
+			return out, e
+		}
+	}
+	V.Assert(false, "reader made no progress")
+	return out, nil
+}
+
+func errClass(err error) int {
+	var ae *Error
+	switch {
+	case err == io.EOF:
+		return 0
+	case errors.As(err, &ae):
+		return 1
+	}
+	return 2
+}
+
+// Harness_C12_armor_delivery: valid armor, and armor with one byte replaced at
+// an arbitrary position, de-armors to the same bytes with the same error class
+// whatever the delivery schedule of the source and the read-buffer size.
+func Harness_C12_armor_delivery() {
+	data := V.Bytes("d", dataLen())
+	text := refArmor(data)
+	if V.Bool("crlf") {
+		text = bytes.ReplaceAll(text, []byte("\n"), []byte("\r\n"))
+	}
+	if V.Bool("damage") {
+		pos := V.Int("dpos", 0, len(text)-1)
+		c := V.Byte("c")
+		V.Assume(c != text[pos])
+		text = append([]byte(nil), text...)
+		text[pos] = c
+	}
+	want, werr := io.ReadAll(NewReader(bytes.NewReader(text)))
+	src := &sched{data: text, failAt: -1, eofWithData: V.Bool("eofWithData")}
+	switch V.Int("piece", 0, 3) {
+	case 1:
+		src.piece = 1
+	case 2:
+		src.piece = 5
+	case 3:
+		src.piece = 65
+	}
+	step := 1
+	switch V.Int("step", 0, 2) {
+	case 1:
+		step = 48
+	case 2:
+		step = 100
+	}
+	got, gerr := readAllStep(NewReader(src), step, len(text)+8)
+	V.Reach("compared")
+	wc := 0
+	if werr != nil {
+		wc = errClass(werr)
+		V.Assert(wc == 1, "de-armoring failure does not carry the armor error type")
+	}
+	V.Assert(errClass(gerr) == wc, "de-armoring outcome depends on the delivery schedule")
+	V.Assert(bytes.Equal(got, want), "de-armored bytes depend on the delivery schedule")
+}
+
+var errWriteFault = errors.New("injected write fault")
+
+type faultyWriter struct {
+	buf    bytes.Buffer
+	calls  int
+	failAt int
+	keep   int
+	once   bool
+	failed bool
+}
+
+func (f *faultyWriter) Write(p []byte) (int, error) {
+	k := f.calls
+	f.calls++
+	if k == f.failAt {
+		f.failed = true
+		n := f.keep
+		if n > len(p) {
+			n = len(p)
+		}
+		f.buf.Write(p[:n])
+		return n, errWriteFault
+	}
+	if f.failed && !f.once {
+		return 0, errWriteFault
+	}
+	return f.buf.Write(p)
+}
+
+// Harness_C13_armor_write_fault: the destination of the armor writer fails at
+// an arbitrary call (permanently or once, accepting 0 / 1 / all-but-one bytes):
+// if both Writes and Close report success the destination holds the complete
+// armor of the data.
+func Harness_C13_armor_write_fault() {
+	data := V.Bytes("d", dataLen())
+	a := V.Int("a", 0, len(data))
+	dst := &faultyWriter{failAt: V.Int("failAt", 0, 8), once: V.Bool("once")}
+	switch V.Int("keep", 0, 2) {
+	case 1:
+		dst.keep = 1
+	case 2:
+		dst.keep = 1 << 20 // everything but the error is still reported
+	}
+	w := NewWriter(dst)
+	_, e1 := w.Write(data[:a])
+	_, e2 := w.Write(data[a:])
+	e3 := w.Close()
+	if e1 == nil && e2 == nil && e3 == nil {
+		V.Reach("all-succeeded")
+		V.Assert(bytes.Equal(dst.buf.Bytes(), refArmor(data)), "every call succeeded but the destination does not hold the complete armor")
+	} else {
+		V.Reach("failed")
+	}
+}
+
+// Harness_C13_armor_read_fault: the source of the armor reader fails with a
+// non-EOF error at an arbitrary offset: a non-EOF error carrying the armor
+// error type comes back, bytes released before are a prefix of the data, and
+// the reader keeps failing.
+func Harness_C13_armor_read_fault() {
+	data := V.Bytes("d", dataLen())
+	text := refArmor(data)
+	src := &sched{data: text, failAt: V.Int("failAt", 0, len(text))}
+	if V.Bool("bytewise") {
+		src.piece = 1
+	}
+	step := 1
+	if V.Bool("bigstep") {
+		step = 100
+	}
+	r := NewReader(src)
+	got, gerr := readAllStep(r, step, len(text)+8)
+	V.Reach("returned")
+	V.Assert(gerr != nil && gerr != io.EOF, "a source failure ended in a clean end of the armored stream")
+	V.Assert(errClass(gerr) == 1, "de-armoring failure does not carry the armor error type")
+	V.Assert(len(got) <= len(data) && bytes.Equal(got, data[:len(got)]), "bytes released before the failure are not a prefix of the data")
+	k, e2 := r.Read(make([]byte, 1))
+	V.Assert(k == 0 && e2 != nil && e2 != io.EOF, "a failed armor reader does not keep failing")
+}
